@@ -679,3 +679,97 @@ def gen_c05(rng, t):
 
 prop("C05", ["c05_total", "c05_reachable", "c05_peek_total"], ["DEC"], gen_c05, [orc_c05],
      exhaustive="all buffers of length 0..1 and (thorough: all, quick: every 7th) 2-byte buffers against four receiver states")
+
+
+# ------------------------------------------------------------------------------------------------
+# C08 buffer conservation (identity of a buffer = its length; multisets, so equal lengths are fine)
+# ------------------------------------------------------------------------------------------------
+from collections import Counter
+
+
+def obs_lengths(ob):
+    """lengths of all buffers in a DOBS line"""
+    import re as _re
+    free = _re.search(r"free=\[([^\]]*)\]", ob).group(1).split()
+    slots = _re.search(r"slots=\[([^\]]*)\]", ob).group(1).split()
+    c = Counter(int(x.split(":")[0]) for x in free)
+    c.update(int(x.split(";")[1].split(":")[0]) for x in slots)
+    return c
+
+
+def orc_c08(case, obs):
+    bad = []
+    if any(o.split(" ")[0] in ("MNEWFRAG", "MTAKE", "MSAVE", "MSAVEC") for o in case.ops):
+        return bad      # direct use of the memory trait (save_frag consumes its argument by design)
+    prov, owned = Counter(), []
+    for op, ob in zip(case.ops, obs):
+        t = op.split(" ")
+        w, d = kv(ob)
+        if t[0] == "DNEW":
+            prov, owned = Counter(), []
+        elif t[0] == "DPROV":
+            prov[int(t[1])] += 1
+            if w[0] == "err":
+                owned.append(int(w[1].split(":")[1]))
+        elif t[0] == "DPROVBACK":
+            if ob == "none":
+                continue
+            if not owned:
+                bad.append("DPROVBACK handed a buffer the oracle does not know about")
+                break
+            b = owned.pop()
+            if w[0] == "err":
+                owned.append(int(w[1].split(":")[1]))
+        elif t[0] == "DNEWPDU" and w[0] == "ok":
+            owned.append(int(w[1].split(":")[0]))
+        elif t[0] in ("DECAP", "DECAPL", "DECAPN"):
+            if w[:2] == ["ok", "completed"]:
+                owned.append(int(d["len"]))
+            elif w[0] == "err" and (w[1].startswith("Memory:Overflow") or w[1].startswith("Memory:TooSmall")):
+                owned.append(int(w[1].split(":")[2]))
+        elif t[0] == "DOBS" and ob.startswith("last="):
+            have = obs_lengths(ob) + Counter(owned)
+            if have != prov:
+                lost = prov - have
+                extra = have - prov
+                bad.append("buffers provisioned %s; memory + caller hold %s (lost %s, duplicated %s)"
+                           % (dict(prov), dict(have), dict(lost), dict(extra)))
+                break
+    return bad
+
+
+def gen_c08(rng, t):
+    """rejected traffic must not exhaust the receiver: many failing packets, then count"""
+    out = []
+    for i in range(300 * t):
+        c = Case("c08_%d" % i)
+        slots, maxpdu = dec_prelude(rng, c, nbuf=rng.range(1, 4))
+        pool = []
+        for _ in range(rng.range(2, 5)):
+            pool.extend(valid_traffic(rng, max(maxpdu, 8), fids=(0, 1, 2, 1 + slots, 2 + slots)))
+        for _ in range(rng.range(5, 30)):
+            r = rng.below(10)
+            p = rng.choice(pool) if pool else b"\x00\x00"
+            if r < 3:
+                p = mutate(rng, p)
+            elif r < 4:
+                p = malformed_packet(rng)
+            elif r < 5:
+                p = build_complete(0x0800, "R", rng.bytes(3))       # unresolvable re-use
+            c.add("DECAP %s" % hx(p))
+            q = rng.below(12)
+            if q == 0:
+                c.add("DPROVBACK")
+            elif q == 1:
+                c.add("DPROV %d" % (maxpdu + 400 + rng.below(50)))
+            elif q == 2:
+                c.add("DRESET")
+            elif q == 3:
+                c.add("DOBS")
+        c.add("DOBS")
+        out.append(c)
+    return out
+
+
+prop("C08", ["c08_decap_conserves", "c08_conservation"], ["DEC", "SYS"], gen_c08, [orc_c08],
+     assumes=["C08 is proved for the bundled SimpleGseMemory; a foreign GseDecapMemory whose save_frag fails consumes the buffer by the trait's own signature"])
